@@ -88,6 +88,7 @@ func newClusterRun(prop string, p *harness.Plan) (*crun, error) {
 			HoldOnPartition: p.P("hold_on_partition", 0) == 1,
 		},
 	}
+	cfg.NoLoops = p.P("no_loops", 0) == 1
 	cfg.KeepTrace = os.Getenv("VERIF_TRACE") != ""
 	cfg.LogStore = os.Getenv("VERIF_LOGSTORE") != ""
 	c, err := cluster.New(cfg)
